@@ -99,7 +99,9 @@ class FieldInvariants:
                             sites.append('%s:%d calls %s' % (c[0], c[2], fname))
                         continue
                 if not (kind == 'construct' and self._operand_is_param(fname, rv)):
-                    dyn_fns.add(fname)
+                    # a closure is evaluated where it is written (its captures are known there)
+                    dyn_fns.add(fname.split('::{closure#')[0] if fname.split('::{closure#')[0] in self.facts['functions']
+                                else fname)
                 if kind == 'construct' and self._operand_is_param(fname, rv):
                     # constructor taking the value as a parameter: the value is decided at its call sites
                     self.ctor_fns = getattr(self, 'ctor_fns', {})
